@@ -11,6 +11,7 @@ mod c11;
 mod c12;
 mod pdu;
 mod c13;
+mod c14;
 mod c20;
 mod util;
 
@@ -42,6 +43,7 @@ fn main() {
         ("mutants", "c11") => c11::mutants(rest),
         ("replay", "c12") => c12::replay(rest),
         ("record", "c12") => c12::record(rest),
+        ("record", "c14") => c14::run(rest),
         ("replay", "c13") => c13::replay(rest),
         ("record", "c13") => c13::record(rest),
         (m, id) => {
